@@ -747,8 +747,9 @@ example : (∀ o ∈ [SOp.branch .lockRead, .repo .lockRead, .branch (.lockWrite
 repository, from every initial situation: the physical logs of all three
 control-files locks and of the fallback repositories are balanced, and each
 `is_locked()` agrees with its count. -/
-theorem tree_physical_balanced (ext rbT rbB rbR : Bool) (ops : List TOp) :
-    let s := (Tree.init ext rbT rbB rbR).run ops
+theorem tree_physical_balanced (ext rbT rbB rbR pin : Bool) (ops : List TOp) :
+    let s := (Tree.init ext rbT rbB rbR pin).run ops
+    Balanced s.ds.log s.ds.held.isSome ∧ (s.ds.held.isSome = true ↔ 0 < s.cf.count) ∧
     Balanced s.cf.phys.log s.cf.phys.held.isSome ∧
     (s.cf.phys.held.isSome = true ↔ 0 < s.cf.count) ∧
     (s.isLocked = true ↔ 0 < s.cf.count) ∧
@@ -758,8 +759,8 @@ theorem tree_physical_balanced (ext rbT rbB rbR : Bool) (ops : List TOp) :
     (0 < s.branch.repo.depth → s.branch.repo.fb = 1 ∧ Balanced s.branch.repo.fbLog true) ∧
     (s.branch.repo.depth = 0 → s.branch.repo.fb = 0 ∧ Balanced s.branch.repo.fbLog false) := by
   intro s
-  have h : s.Inv := Tree.inv_run (Tree.inv_init ext rbT rbB rbR) ops
-  refine ⟨h.cf.bal, ?_, ?_, h.branch.cf.bal, ?_, h.branch.repo.cf.bal,
+  have h : s.Inv := Tree.inv_run (Tree.inv_init ext rbT rbB rbR pin) ops
+  refine ⟨h.ds_bal, h.ds_held, h.cf.bal, ?_, ?_, h.branch.cf.bal, ?_, h.branch.repo.cf.bal,
     fun hd => ⟨h.branch.repo.fb_pos hd, h.branch.repo.fb_bal_pos hd⟩,
     fun hd => ⟨h.branch.repo.fb_zero hd, h.branch.repo.fb_bal_zero hd⟩⟩
   · rw [← h.cf.mode_held]; exact h.cf.mode_count
@@ -806,8 +807,8 @@ theorem tree_ok_edge (s : Tree) (h : s.Inv) (o : TreeOp) (t : Option Nat)
     ((s.step (.tree o)).1.cf.count = 0 → (s.step (.tree o)).1.cf.phys.log = s.cf.phys.log ++ [.rel]) ∧
     (0 < s.cf.count → 0 < (s.step (.tree o)).1.cf.count →
       (s.step (.tree o)).1.cf.phys.log = s.cf.phys.log) := by
-  obtain ⟨tb, tc, hb, hc, hs⟩ := Tree.step_ok o hr
-  rw [hs]
+  obtain ⟨tb, tc, hb, hc, hs1, hs2⟩ := Tree.step_ok o hr
+  rw [hs1, hs2]
   obtain ⟨c1, c2, c3, c4⟩ := lf_ok_edge s.cf h.cf o.cfOp tc hc
   obtain ⟨b1, _⟩ := branchG_ok_edge s.branch h.branch o.branchOp tb hb
   refine ⟨?_, c2, c3, c4⟩
@@ -835,27 +836,27 @@ theorem tree_refused_unchanged_partial (s : Tree) (h : s.Inv) (hcons : s.Consist
     have := branchG_refused_unchanged s.branch h.branch hcons.branch (.repo o) e hr
     simp only [Tree.lcore, Branch.lcore_of_core this]
   | tree o =>
-    cases o with
-    | lockRead =>
-      exact Tree.lockVia_refused h .lockRead (by decide) _
-        (fun e he => lf_refused_unchanged s.cf h.cf .lockRead e he) (hbr _) hr
-    | lockTreeWrite =>
-      exact Tree.lockVia_refused h .lockRead (by decide) _
-        (fun e he => lf_refused_unchanged s.cf h.cf (.lockWrite none) e he) (hbr _) hr
-    | lockWrite =>
-      exact Tree.lockVia_refused h (.lockWrite none) (by decide) _
-        (fun e he => lf_refused_unchanged s.cf h.cf (.lockWrite none) e he) (hbr _) hr
-    | unlock =>
-      simp only [Tree.step, Tree.unlock] at hr ⊢
+    by_cases hu : o = .unlock
+    · subst hu
+      obtain ⟨h1, h2, h3⟩ := Tree.unlock_state s
+      have hres := Tree.unlock_result s
+      simp only [Tree.step] at hr ⊢
       rcases LF.unlock_spec h.cf with ⟨hc, eu⟩ | ⟨hc, cf', eu, hcc, _⟩
       · have hb0 : s.branch.cf.count = 0 := by
           cases hb : s.branch.cf.count with
           | zero => rfl
           | succ n => exact absurd ⟨rfl, hc, by omega⟩ hex
-        simp only [eu, Branch.stepG_guard s.branch hb0]
+        have hne : (s.cf.count = 1 && s.ds.held.isSome) = false := by simp [hc]
+        simp only [Tree.lcore, h1, h2, h3, eu, Branch.stepG_guard s.branch hb0, hne, Bool.false_eq_true,
+          if_false]
       · exfalso
-        obtain ⟨b, eb, _⟩ := Branch.unlock_ok h.branch hcons.branch (hcons.tree hc)
-        simp [eu, eb] at hr
+        obtain ⟨b, eb, _⟩ := Branch.unlock_ok h.branch hcons.branch (by have := hcons.tree; omega)
+        rw [hres, eb, eu] at hr
+        cases hr
+    · rw [Tree.step_lock_eq s o hu] at hr ⊢
+      have hbo : o.branchOp ≠ .unlock := by cases o <;> first | exact absurd rfl hu | decide
+      have hco : o.cfOp ≠ .unlock := by cases o <;> first | exact absurd rfl hu | decide
+      exact Tree.lockVia_refused h _ hbo _ _ hco (hbr _) hr
 
 /-- a write lock (`lock_write` or `lock_tree_write`) requested on a read-locked tree is
 refused with `ReadOnlyError` (and, by `tree_refused_unchanged_partial`, changes nothing) -/
@@ -863,7 +864,7 @@ theorem tree_write_after_read_refused (s : Tree) (h : s.Inv) (hcons : s.Consiste
     (hm : s.cf.mode = some .r) (o : TreeOp) (ho : o = .lockWrite ∨ o = .lockTreeWrite) :
     (s.step (.tree o)).2 = .error .readOnly ∧ (s.step (.tree o)).1.lcore = s.lcore := by
   have hc : 0 < s.cf.count := h.cf.mode_count.mp (by simp [hm])
-  have hbc : 0 < s.branch.cf.count := hcons.tree hc
+  have hbc : 0 < s.branch.cf.count := by have := hcons.tree; omega
   have hself : (s.cf.lockWrite none).2 = .error .readOnly := by
     have := lf_write_after_read_refused s.cf hm none
     simp only [LF.step] at this
@@ -874,7 +875,7 @@ theorem tree_write_after_read_refused (s : Tree) (h : s.Inv) (hcons : s.Consiste
       simp only [Tree.step, Tree.lockWrite]
       rcases hb : s.branch.stepG (.branch (.lockWrite none)) with ⟨b, rb⟩
       cases rb with
-      | ok tb => exact Tree.lockVia_self_refused h _ (by decide) _ hb hself
+      | ok tb => exact Tree.lockVia_self_refused h (.lockWrite none) (by decide) _ _ hb hself
       | error e' =>
         have hl : s.branch.isLocked = true := by simp [Branch.isLocked, LF.isLocked]; omega
         simp only [Branch.stepG, Branch.step, Branch.lockWrite, hl, Bool.not_true, Bool.false_eq_true,
@@ -893,7 +894,7 @@ theorem tree_write_after_read_refused (s : Tree) (h : s.Inv) (hcons : s.Consiste
       simp only [Tree.step, Tree.lockTreeWrite]
       rcases hb : s.branch.stepG (.branch .lockRead) with ⟨b, rb⟩
       cases rb with
-      | ok tb => exact Tree.lockVia_self_refused h _ (by decide) _ hb hself
+      | ok tb => exact Tree.lockVia_self_refused h .lockRead (by decide) _ _ hb hself
       | error e' =>
         exfalso
         have hl : s.branch.isLocked = true := by simp [Branch.isLocked, LF.isLocked]; omega
@@ -905,6 +906,147 @@ theorem tree_write_after_read_refused (s : Tree) (h : s.Inv) (hcons : s.Consiste
   refine ⟨hres, tree_refused_unchanged_partial s h hcons (.tree o) .readOnly hres ?_⟩
   rintro ⟨ho', _⟩
   rcases ho with rfl | rfl <;> cases ho'
+
+/-- `Tree.Consistent` (every tree lock holds a branch lock, a locked branch holds its
+repository) is preserved by EVERY step of the stack except a caller's own direct
+`branch.unlock()` / `repository.unlock()` — including the over-unlock of the finding. -/
+theorem tree_consistent_step (s : Tree) (h : s.Inv) (hcons : s.Consistent) (o : TOp)
+    (ho : o ≠ .repo .unlock ∧ o ≠ .branch .unlock) : (s.step o).1.Consistent := by
+  have hbstep : ∀ bo : SOp, bo ≠ .repo .unlock → (s.branch.stepG bo).1.Consistent :=
+    fun bo hbo => branchG_consistent_step s.branch h.branch hcons.branch bo hbo
+  cases o with
+  | repo o =>
+    have hne : SOp.repo o ≠ .repo .unlock := fun hx => ho.1 (by injection hx with hx; rw [hx])
+    refine ⟨?_, hbstep _ hne⟩
+    show s.cf.count ≤ (s.branch.stepG (.repo o)).1.cf.count
+    rw [Branch.stepG_repo]
+    exact hcons.tree
+  | branch o =>
+    have hne : o ≠ .unlock := fun hx => ho.2 (by rw [hx])
+    refine ⟨?_, hbstep _ (by intro hx; cases hx)⟩
+    show s.cf.count ≤ (s.branch.stepG (.branch o)).1.cf.count
+    have ht := hcons.tree
+    cases hres : (s.branch.stepG (.branch o)).2 with
+    | error e =>
+      have hcore := branchG_refused_unchanged s.branch h.branch hcons.branch (.branch o) e hres
+      have := (Branch.lcore_counts (Branch.lcore_of_core hcore)).1
+      omega
+    | ok t =>
+      obtain ⟨h1, _⟩ := branchG_ok_edge s.branch h.branch o t hres
+      simp only [hne, if_false] at h1
+      omega
+  | tree o =>
+    cases hres : (s.step (.tree o)).2 with
+    | ok t =>
+      obtain ⟨tb, tc, hb, hc, hs1, hs2⟩ := Tree.step_ok o hres
+      obtain ⟨c1, _⟩ := tree_ok_edge s h o t hres
+      have ht := hcons.tree
+      refine ⟨?_, ?_⟩
+      · cases o <;> simp only [reduceCtorEq, if_false, if_true] at c1 <;> omega
+      · rw [hs2]; exact hbstep _ (by intro hx; cases hx)
+    | error e =>
+      by_cases hu : o = .unlock
+      · subst hu
+        -- `unlock`: the state is always (cf.unlock, branch.unlock), whatever is raised
+        obtain ⟨h1, h2, _⟩ := Tree.unlock_state s
+        refine ⟨?_, by simp only [Tree.step]; rw [h2]; exact hbstep _ (by intro hx; cases hx)⟩
+        show (s.step (.tree .unlock)).1.cf.count ≤ (s.step (.tree .unlock)).1.branch.cf.count
+        simp only [Tree.step]
+        rw [h1, h2]
+        have ht := hcons.tree
+        rcases LF.unlock_spec h.cf with ⟨hc0, eu⟩ | ⟨hc, cf', eu, hcc, _⟩
+        · rw [eu]; simp only; omega
+        · obtain ⟨b, eb, hbc⟩ := Branch.unlock_ok h.branch hcons.branch (by omega)
+          rw [eu, eb]; simp only; omega
+      · have hl := tree_refused_unchanged_partial s h hcons (.tree o) e hres
+          (by rintro ⟨hx, _⟩; injection hx with hx; exact hu hx)
+        obtain ⟨hc, hb, _⟩ := Tree.lcore_parts hl
+        obtain ⟨hb1, hb2⟩ := Branch.lcore_counts hb
+        have ht := hcons.tree
+        refine ⟨by omega, ?_⟩
+        intro hpos
+        have := hcons.branch (by omega)
+        omega
+
+theorem tree_consistent_run (s : Tree) (h : s.Inv) (hcons : s.Consistent) (ops : List TOp)
+    (hops : ∀ o ∈ ops, o ≠ TOp.repo .unlock ∧ o ≠ TOp.branch .unlock) :
+    (s.run ops).Inv ∧ (s.run ops).Consistent := by
+  induction ops generalizing s with
+  | nil => exact ⟨h, hcons⟩
+  | cons o ops ih =>
+    exact ih _ (Tree.inv_step h o) (tree_consistent_step s h hcons o (hops o (List.mem_cons_self ..)))
+      (fun o' ho' => hops o' (List.mem_cons_of_mem _ ho'))
+
+/-- `tree_refused_unchanged_partial` without the `Consistent` hypothesis: after ANY
+sequence of tree, branch and repository calls that contains no direct `branch.unlock()`
+/ `repository.unlock()` of a caller, from any initial situation, a refused call leaves the
+lock state of the whole stack unchanged — except the over-unlock of the finding. -/
+theorem tree_refused_unchanged_run (ext rbT rbB rbR pin : Bool) (ops : List TOp)
+    (hops : ∀ o ∈ ops, o ≠ TOp.repo .unlock ∧ o ≠ TOp.branch .unlock) (o : TOp) (e : Err)
+    (hr : (((Tree.init ext rbT rbB rbR pin).run ops).step o).2 = .error e)
+    (hex : ¬ (o = .tree .unlock ∧ ((Tree.init ext rbT rbB rbR pin).run ops).cf.count = 0 ∧
+      0 < ((Tree.init ext rbT rbB rbR pin).run ops).branch.cf.count)) :
+    (((Tree.init ext rbT rbB rbR pin).run ops).step o).1.lcore = ((Tree.init ext rbT rbB rbR pin).run ops).lcore := by
+  have hinit : (Tree.init ext rbT rbB rbR pin).Consistent :=
+    ⟨by simp [Tree.init, LF.init], by intro h; simp [Tree.init, Branch.init, LF.init] at h⟩
+  obtain ⟨hi, hc⟩ := tree_consistent_run _ (Tree.inv_init ext rbT rbB rbR pin) hinit ops hops
+  exact tree_refused_unchanged_partial _ hi hc o e hr hex
+
+/-- a sequence satisfying the hypothesis, with nested tree locks of all three kinds, a direct
+branch lock, and a refused call -/
+example : (∀ o ∈ [TOp.tree .lockTreeWrite, .tree .lockRead, .branch .lockRead, .tree .unlock],
+      o ≠ TOp.repo .unlock ∧ o ≠ TOp.branch .unlock) ∧
+    (((Tree.init false).run [.tree .lockTreeWrite, .tree .lockRead, .branch .lockRead, .tree .unlock]).step
+      (.tree .lockWrite)).2 = .error .readOnly := by
+  refine ⟨by decide, by decide⟩
+
+/-! #### the dirstate file lock (fourth layer) -/
+
+/-- THE DIRSTATE ROLL-BACK.  A first write lock of a dirstate tree (`lock_write` or
+`lock_tree_write`, tree count 0) whose dirstate FILE is pinned by another reader (a second
+working-tree object or process holds a read lock on it), with the branch call and the
+tree's own control-files `lock_write()` granted: the call raises `LockContention`; the
+lock state of the WHOLE stack (tree control files, dirstate, branch, repository) is
+unchanged; and the control files' physical lock — taken before the dirstate was tried —
+has been RELEASED again: not held, count 0, its log grown by exactly `acquire, release`. -/
+theorem tree_dirstate_refused_rollback (s : Tree) (h : s.Inv) (hcons : s.Consistent) (o : TreeOp)
+    (ho : o = .lockWrite ∨ o = .lockTreeWrite) (hc0 : s.cf.count = 0) (hpin : s.ds.pinned = true)
+    (tb tc : Option Nat) (hb : (s.branch.stepG (.branch o.branchOp)).2 = .ok tb)
+    (hc : (s.cf.lockWrite none).2 = .ok tc) :
+    (s.step (.tree o)).2 = .error .contention ∧
+    (s.step (.tree o)).1.lcore = s.lcore ∧
+    (s.step (.tree o)).1.cf.count = 0 ∧
+    (s.step (.tree o)).1.cf.phys.held = none ∧
+    (s.step (.tree o)).1.ds = s.ds ∧
+    (∃ ev, ev ≠ Ev.rel ∧ (s.step (.tree o)).1.cf.phys.log = s.cf.phys.log ++ [ev] ++ [.rel]) := by
+  have hu : o ≠ .unlock := by rcases ho with rfl | rfl <;> decide
+  have hbo : o.branchOp ≠ .unlock := by rcases ho with rfl | rfl <;> decide
+  have hm : o.dsMode = .w := by rcases ho with rfl | rfl <;> rfl
+  have hcf : (fun cf : LF => cf.step o.cfOp) = (fun cf : LF => cf.lockWrite none) := by
+    rcases ho with rfl | rfl <;> rfl
+  have hstep := Tree.step_lock_eq s o hu
+  rw [hm, hcf] at hstep
+  obtain ⟨r1, r2, r3, r4, r5⟩ := Tree.lockVia_ds_refused h o.branchOp hbo hc0 hpin
+    (b := (s.branch.stepG (.branch o.branchOp)).1) (tb := tb) (Prod.ext rfl hb)
+    (cf' := (s.cf.lockWrite none).1) (tc := tc) (Prod.ext rfl hc)
+  rw [← hstep] at r1 r2 r3 r4 r5
+  refine ⟨r1, ?_, r3, r4, r2, r5⟩
+  exact tree_refused_unchanged_partial s h hcons (.tree o) .contention r1
+    (by rintro ⟨hx, _⟩; injection hx with hx; exact hu hx)
+
+/-- the hypotheses hold in reachable states: a fresh tree with a pinned dirstate, and one whose
+branch somebody else holds; `lock_read` of a pinned tree is granted -/
+example : ((Tree.init false (pin := true)).step (.tree .lockWrite)).2 = .error .contention ∧
+    ((Tree.init false (pin := true)).step (.tree .lockWrite)).1.cf.phys.log = [.acqW, .rel] ∧
+    ((Tree.init false (pin := true)).step (.tree .lockWrite)).1.branch.cf.phys.log = [.acqW, .rel] ∧
+    ((Tree.init false (pin := true)).step (.tree .lockWrite)).1.lcore = (Tree.init false (pin := true)).lcore ∧
+    ((Tree.init false (pin := true)).step (.tree .lockRead)).2 = .ok none := by decide
+
+example : (((Tree.init false (pin := true)).run [.branch .lockRead]).step (.tree .lockTreeWrite)).2
+      = .error .contention ∧
+    (((Tree.init false (pin := true)).run [.branch .lockRead]).step (.tree .lockTreeWrite)).1.branch.cf.count = 1 ∧
+    (((Tree.init false (pin := true)).run [.branch .lockRead]).step (.tree .lockTreeWrite)).1.cf.phys.held = none := by
+  decide
 
 /-! #### the guarded tree (`Tree.stepG`: the fix that had to be reverted) — no exception left -/
 
@@ -918,14 +1060,14 @@ theorem treeG_refused_unchanged (s : Tree) (h : s.Inv) (hcons : s.Consistent) (o
   · rw [Tree.stepG_eq s o hg] at hr ⊢
     exact tree_refused_unchanged_partial s h hcons o e hr (fun hx => hg ⟨hx.1, hx.2.1⟩)
 
-theorem treeG_physical_balanced (ext rbT rbB rbR : Bool) (ops : List TOp) :
-    let s := (Tree.init ext rbT rbB rbR).runG ops
+theorem treeG_physical_balanced (ext rbT rbB rbR pin : Bool) (ops : List TOp) :
+    let s := (Tree.init ext rbT rbB rbR pin).runG ops
     Balanced s.cf.phys.log s.cf.phys.held.isSome ∧
     (s.cf.phys.held.isSome = true ↔ 0 < s.cf.count) ∧
     Balanced s.branch.cf.phys.log s.branch.cf.phys.held.isSome ∧
     (s.branch.cf.phys.held.isSome = true ↔ 0 < s.branch.cf.count) := by
   intro s
-  have h : s.Inv := Tree.inv_runG (Tree.inv_init ext rbT rbB rbR) ops
+  have h : s.Inv := Tree.inv_runG (Tree.inv_init ext rbT rbB rbR pin) ops
   refine ⟨h.cf.bal, ?_, h.branch.cf.bal, ?_⟩
   · rw [← h.cf.mode_held]; exact h.cf.mode_count
   · rw [← h.branch.cf.mode_held]; exact h.branch.cf.mode_count
@@ -945,7 +1087,7 @@ example : ((Tree.init false).run [.branch (.lockWrite none), .tree .lockRead]).c
       = 2 := by decide
 
 example : ((Tree.init false).run [.branch (.lockWrite none), .tree .lockRead]).Consistent :=
-  ⟨fun _ => by decide, fun _ => by decide⟩
+  ⟨by decide, fun _ => by decide⟩
 
 example : ((Tree.init false true).step (.tree .lockRead)).2 = .error .contention ∧
     ((Tree.init false true).step (.tree .lockRead)).1.branch.cf.phys.log = [.acqR, .rel] ∧
